@@ -855,7 +855,8 @@ TIE = {
     'C11': [('SrcTieStats', 'src_C11_'), ('E2ECompare', 'compare_')], 'C12': [('SrcTieStats', 'src_C12_')], 'C05': [('SrcTieGeom', 'src_C05_'), ('SrcTieGeom', 'src_C06_block'), ('E2E', 'block_transparent'), ('E2E', 'partitions_agree'),
             ('E2ESrc', 'block_transparent_src_grid'), ('E2ESrc', 'partitions_agree_src_grid'), ('E2ESrc', 'correctedSrcGrid_eq_on')],
     'C06': [('SrcTieGeom', 'src_C06_')], 'C16': [('SrcTieGeom', 'src_C16_')], 'C18': [('SrcTieGeom', 'src_C18_')],
-    'C17': [('SrcTieGeom', 'src_C17_'), ('E2EPartial', 'partial_mask_'), ('E2EPartialDef', 'partial_valid_')], 'C20': [('SrcTieGeom', 'src_C20_')],
+    'C17': [('SrcTieGeom', 'src_C17_'), ('E2EPartial', 'partial_mask_'), ('E2EPartialDef', 'partial_valid_'),
+            ('E2EPartialSrc', 'partial')], 'C20': [('SrcTieGeom', 'src_C20_')],
     'C04': [('SrcTieSched', 'src_C04_')], 'C09': [('SrcTieSched', 'src_C04_')], 'C10': [('SrcTieSched', 'src_C10_')], 'C19': [('SrcTieSched', 'src_C19_')],
 }
 
